@@ -208,8 +208,14 @@ def permute_check(case):
                     sample=case)
 
 
+def _deep_strategy(tier):
+    # deep, mostly uncrossed books with many cancels from the middle, swept by drain probes
+    return market_cases(max_ops=60 if tier == "quick" else 300, market_frac=1, deep=True, toggles=False)
+
+
 PARTS = {
     "machine": {"check": make_check({"C02"}, _nt), "strategy": _strategy, "budget": {"quick": 3000, "thorough": 100000}},
+    "deep": {"check": make_check({"C02"}, _nt), "strategy": _deep_strategy, "budget": {"quick": 3000, "thorough": 100000}},
     "finite": {"shard": finite_shard, "replay": finite_replay, "budget": {"quick": 1, "thorough": 1}, "exhaustive": True},
     "floats": {"check": floats_check, "strategy": lambda tier: float_triples(), "budget": {"quick": 8000, "thorough": 400000}},
     "permute": {"check": permute_check, "strategy": lambda tier: permute_cases(), "budget": {"quick": 2000, "thorough": 60000}},
